@@ -34,6 +34,28 @@ def run(rep):
             return 1
         print("not reproduced: no report with key %s" % rep["key"])
         return 0
+    if kind == "mpi-sanitizer":
+        import glob, sanitizer_logs
+        from . import mpirun
+        tool = rep.get("tool", "asan")
+        vh = build.build_harness("A-real" if tool == "asan" else "P-real")
+        supp = "/usr/share/openmpi/openmpi-valgrind.supp"
+        cmdp = vh if tool == "asan" else ["valgrind", "--tool=memcheck", "-q", "--num-callers=30", "--leak-check=no"] + (["--suppressions=" + supp] if os.path.exists(supp) else []) + [vh]
+        wdir = runner.work_dir("replay")
+        case = rep.get("case") or 0
+        odir = os.path.join(wdir, "stderr")
+        res = mpirun.launch(cmdp, rep["driver"], rep["np"], rep["seed"], "quick", case, case + 1, wdir, "replay", rep.get("env") or {}, 1500, mpiexec_args=["--output-filename", odir])
+        hit = False
+        for path in sorted(glob.glob(os.path.join(odir, "*", "rank.*", "stderr"))):
+            for r in sanitizer_logs.parse_text(open(path, "r", errors="replace").read()):
+                key = "C17:%s:%s:%s" % (r["tool"], r["kind"], r["site"])
+                print("report %s (%s)\n%s\n" % (key, path, r["text"][:3000]))
+                hit = hit or key == rep["key"]
+        if hit:
+            print("VIOLATION property=%s replay=%s" % (rep["property"], rep.get("_path", "?")))
+            return 1
+        print("not reproduced: no report with key %s" % rep["key"])
+        return 0
     if kind == "mpi":
         from . import mpirun
         vh = build.build_harness(rep.get("flavour", "P-real"))
